@@ -80,6 +80,9 @@ uint64_t g_counter = 0;
 size_t g_next_switch = 0;
 Hash g_sched_hash;
 int g_rr = 0;
+int g_prio[MAX_TASKS];
+std::vector<uint64_t> g_pct_points;
+int g_pct_low = 0;
 
 std::unordered_map<uintptr_t, Cell> *g_shadow = nullptr;
 std::unordered_map<const void *, SyncVar> *g_sync = nullptr;
@@ -213,6 +216,20 @@ void yield_point(Task &t)
         break;
     case 2:
         break;
+    case 4: {
+        // PCT (Burckhardt et al.): run the highest-priority runnable task; at each of the
+        // d-1 pre-drawn change points the running task drops below everybody else
+        for (uint64_t cp : g_pct_points)
+            if (cp == g_stats->yields)
+                g_prio[t.id] = --g_pct_low;
+        auto r = runnable();
+        int best = t.id;
+        for (int k : r)
+            if (g_prio[k] > g_prio[best] || g_tasks[best].state != T_RUNNABLE)
+                best = k;
+        to = best;
+        break;
+    }
     case 3: {
         auto r = runnable();
         g_rr = (g_rr + 1) % (int)r.size();
@@ -238,6 +255,10 @@ void relinquish(Task &t, bool wait_after)
         sem_post(&g_main_sem);
     } else {
         int to = g_cfg.mode == 0 ? r[g_rng.below(r.size())] : r[0];
+        if (g_cfg.mode == 4)
+            for (int k : r)
+                if (g_prio[k] > g_prio[to])
+                    to = k;
         hand_over(t.id, to);
     }
     if (wait_after)
@@ -411,11 +432,25 @@ void run_tasks(int ntasks, const std::function<void(int)> &body, const SchedConf
         t.in_library = false;
         sem_init(&t.sem, 0, 0);
     }
+    // PCT state: a random permutation of priorities and d-1 change points
+    for (int i = 0; i < ntasks; ++i)
+        g_prio[i] = i + 1;
+    for (int i = ntasks - 1; i > 0; --i)
+        std::swap(g_prio[i], g_prio[g_rng.below((uint64_t)i + 1)]);
+    g_pct_points.clear();
+    g_pct_low = 0;
+    if (cfg.mode == 4)
+        for (int i = 1; i < cfg.pct_depth; ++i)
+            g_pct_points.push_back(g_rng.below(cfg.pct_horizon ? cfg.pct_horizon : 1));
     sim::alloc::on_free = &free_hook;
     for (int i = 0; i < ntasks; ++i)
         pthread_create(&g_tasks[i].th, nullptr, &task_main, &g_tasks[i]);
     g_parallel = true;
     int first = cfg.mode == 0 ? (int)g_rng.below((uint64_t)ntasks) : 0;
+    if (cfg.mode == 4)
+        for (int i = 0; i < ntasks; ++i)
+            if (g_prio[i] > g_prio[first])
+                first = i;
     g_cur = first;
     sem_post(&g_tasks[first].sem);
     sem_wait(&g_main_sem);
